@@ -1007,12 +1007,12 @@ static void checkConditional(Rng& r, Ctx& c, const MeshCase& mc, const std::vect
     kappaUb = (double)a1 / lminQ;
   }
   c.putn("kappaUb", kappaUb);
-  if (kappaUb <= 1e10)
+  if (kappaUb <= 1e11)
   {
     double q = (double)(rich / (64. * N * EPS * mch + 1e-300L));
     c.check("solve-residual-chol", "C15:PrecisionOpMultiConditionalCs::evalInverse:residual:" + kcls, q <= 1, q, 1);
   }
-  else c.skip("cond:chol-illcond(kappaUb>1e10)");
+  else c.skip("cond:chol-illcond(kappaUb>1e11)");
   std::string bcls = bnorm < 1 ? "rhs-norm<1" : "rhs-norm>=1";
   bool cgRuleOk = false;
   if (!(bnorm > 0)) c.skip("cond:zero-rhs");
@@ -1130,7 +1130,7 @@ static void checkConditional(Rng& r, Ctx& c, const MeshCase& mc, const std::vect
   ref::Chol chA(A);
   if (!chA.ok)
   {
-    if (kappaUb > 1e10) c.skip("cond:illcond");
+    if (kappaUb > 1e11) c.skip("cond:illcond");
     else c.truth("cond-A-posdef", "C15:cond:A-not-posdef:" + cls, false);
     return;
   }
@@ -1398,7 +1398,7 @@ static void run_case(Rng& r, Ctx& c)
   if (!c.truth("lambda-positive", "C15:shiftop:lambda-nonpositive:" + cls, lamOk)) return;
   c.truth("two-shiftops-agree", "C15:shiftop:nondeterministic:" + cls, lam == lamCs);
   // cheap upper bound of cond(Q): lambda_max <= ||Q||_1, lambda_min >= coef[0] * min(lambda_i^2) (P(S) >= coef[0] I since S is PSD and
-  // the coefficients are >= 0). Beyond 1e10 the entries of Q (known to 1e-16 relative) no longer determine a positive definite matrix
+  // the coefficients are >= 0). Beyond 1e11 the entries of Q (known to 1e-16 relative) no longer determine a positive definite matrix
   // reliably (n eps cond ~ 1): factorisations, x'Qx and solves are then excluded (DESIGN 5.3), products and symmetry are not.
   double kappaUbQ;
   {
@@ -1410,9 +1410,9 @@ static void run_case(Rng& r, Ctx& c)
     for (double v : lam) lmin2 = std::min(lmin2, v * v);
     kappaUbQ = (double)q1 / (mo.coef[0] * lmin2);
   }
-  const bool wellQ = kappaUbQ <= 1e10;
+  const bool wellQ = kappaUbQ <= 1e11;
   c.putn("kappaUbQ", kappaUbQ);
-  if (!wellQ) c.skip("Q:illcond(kappaUbQ>1e10):factorisation-oracles");
+  if (!wellQ) c.skip("Q:illcond(kappaUbQ>1e11):factorisation-oracles");
   // algebraic invariants of the shift operator S = C^-1/2 G C^-1/2 (ShiftOpCs::_buildS: "_S->prodNormDiagVecInPlace(_TildeC, -3)"):
   // G is a stiffness matrix (rows sum to zero because the shape functions sum to one) => S * sqrt(TildeC) = 0; S symmetric; x'Sx >= 0
   {
